@@ -235,7 +235,40 @@ def list_comprehension(I, e):
     ext = I.registry.get("listcomp")
     if ext is not None:
         return ext(I, e)
+    r = replicate_comprehension(I, e)
+    if r is not None:
+        return r
     raise Unsupported("list comprehension at %s:%d" % (I.frame().relpath, e.lineno))
+
+
+def replicate_comprehension(I, e):
+    """[elt for _ in range(n)] where elt does not mention the loop variable: a sequence of n copies of the value of elt.
+    elt is evaluated once (its callee contracts are checked once); it must write nothing (checked on the write log), so that
+    evaluating it n times - including 0 times - is indistinguishable."""
+    if len(e.generators) != 1:
+        return None
+    g = e.generators[0]
+    if g.ifs or g.is_async or not isinstance(g.target, ast.Name):
+        return None
+    it = g.iter
+    if not (isinstance(it, ast.Call) and isinstance(it.func, ast.Name) and it.func.id == "range" and len(it.args) == 1 and not it.keywords):
+        return None
+    if any(isinstance(x, ast.Name) and x.id == g.target.id for x in ast.walk(e.elt)):
+        return None
+    n = I.ev(it.args[0])
+    if not isinstance(n, In):
+        return None
+    log = []
+    I.write_logs.append(log)
+    try:
+        v = I.ev(e.elt)
+    finally:
+        I.write_logs.remove(log)
+    if log:
+        raise Unsupported("comprehension element with side effects at %s:%d" % (I.frame().relpath, e.lineno))
+    from .models import sym_seq
+    ln = z3.If(n.v > 0, n.v, z3.IntVal(0))
+    return sym_seq(I, lambda i, v=v: v, z3.simplify(ln), "list")
 
 
 def zip_comprehension(I, e, g, keys, values):
@@ -319,8 +352,12 @@ def foreach_index(I, st, seq):
     for cl in lc.inv(L):
         C.prove_clause(I, pfx + "init::", cl)
     mode = I.choice(2)
-    for loc in lc.havoc(L):
-        C.havoc_loc(I, loc)
+    hv = lc.havoc(L)
+    for loc in hv:
+        if callable(loc):
+            loc(I)                   # custom havoc of locations whose shape may change (e.g. None -> value)
+        else:
+            C.havoc_loc(I, loc)
     for name in lc.locals_:
         if name in fr.env:
             fr.env[name] = C.fresh_like(I, fr.env[name], "hv_" + name)
@@ -343,6 +380,14 @@ def foreach_index(I, st, seq):
             I.write_logs.pop()
         I.obls.append(C.Obligation(pfx + "preserve::iterated_sequence_not_modified", "sat" if any(o == seq.oid for o, _ in log) else "unsat",
                                    "engine(write log)", 0, path=list(I.dec), model={} if any(o == seq.oid for o, _ in log) else None))
+        # frame of the loop: whatever the body writes in objects that existed at loop entry must be among the havocked locations
+        frame = list(getattr(lc, "frame", lambda L: [x for x in hv if not callable(x)])(L))
+        objs = set(x[1].oid for x in frame if x[0] == "obj")
+        fields = set((x[1].oid, x[2]) for x in frame if x[0] == "field")
+        cols = set(x[1].oid for x in frame if x[0] == "col")
+        outside = sorted(str((o, w)) for o, w in log if o in entry and o != seq.oid and o not in objs and o not in cols and (o, w) not in fields)
+        I.obls.append(C.Obligation(pfx + "preserve::frame", "sat" if outside else "unsat", "engine(write log)", 0, path=list(I.dec),
+                                   model={"written_outside_loop_frame": outside} if outside else None))
         I.add_idx(i + 1)
         L2 = IndexLoopCtx(I, entry, fr.env, i + 1, n, seq)
         for cl in lc.inv(L2):
